@@ -40,25 +40,27 @@ RunUpd(r, t, lf, cls, feed, weight) ==
         [r EXCEPT !.S = ApplyUpd(r.S, lf, cls, FALSE, weight), !.cur = @ + 1, !.acc = TRUE, !.lastcls = cls]
     ELSE IF cls = "replace" /\ MayWithhold(r.S, lf, ed) THEN
         [r EXCEPT !.S = ApplyUpd(r.S, lf, cls, TRUE, weight), !.acc = TRUE, !.lastcls = cls]
-    ELSE [r EXCEPT !.ok = FALSE]
+    ELSE (* wrong feed: the state still moves on, so that the other aspects *)
+         (* of the call are judged on their own                             *)
+         [r EXCEPT !.ok = FALSE, !.S = ApplyUpd(r.S, lf, cls, FALSE, weight), !.acc = TRUE, !.lastcls = cls]
 
 RunDel(r, t, q, ts, feed) ==
     LET grp == DelFeed(t, r.S, q, ts)
         n   == Cardinality(grp) IN
     IF r.cur + n - 1 <= Len(feed) /\ {feed[i] : i \in r.cur..(r.cur + n - 1)} = grp
     THEN [r EXCEPT !.S = ApplyDel(r.S, q, ts), !.cur = @ + n]
-    ELSE [r EXCEPT !.ok = FALSE]
+    ELSE [r EXCEPT !.ok = FALSE, !.S = ApplyDel(r.S, q, ts)]
 
 RECURSIVE FoldUps(_, _, _, _, _, _, _)
 FoldUps(r, t, ups, i, ts, now, feed) ==
-    IF i > Len(ups) \/ ~r.ok THEN r
+    IF i > Len(ups) THEN r
     ELSE LET lf  == Leaf(ups[i], ts, FALSE)
              cls == UpdClass(r.S, lf, now, thr) IN
          FoldUps(RunUpd(r, t, lf, cls, feed, 1), t, ups, i + 1, ts, now, feed)
 
 RECURSIVE FoldDels(_, _, _, _, _, _)
 FoldDels(r, t, dels, j, ts, feed) ==
-    IF j > Len(dels) \/ ~r.ok THEN r
+    IF j > Len(dels) THEN r
     ELSE FoldDels(RunDel(r, t, dels[j].p, ts, feed), t, dels, j + 1, ts, feed)
 
 R0(s) == [ok |-> TRUE, resok |-> TRUE, S |-> s, cur |-> 1, acc |-> FALSE, rej |-> FALSE, lastcls |-> "none"]
@@ -190,7 +192,7 @@ LifeOps(e) ==
 
 RECURSIVE FoldLife(_, _, _, _, _, _)
 FoldLife(r, t, ops, i, now, feed) ==
-    IF i > Len(ops) \/ ~r.ok THEN r
+    IF i > Len(ops) THEN r
     ELSE IF ops[i].k = "u"
          THEN FoldLife(RunUpd(r, t, ops[i].lf, UpdClass(r.S, ops[i].lf, now, thr), feed, 1), t, ops, i + 1, now, feed)
          ELSE FoldLife(RunDel(r, t, ops[i].q, now, feed), t, ops, i + 1, now, feed)
